@@ -187,6 +187,33 @@ func vfCheckFidelity(c *vfCtx, cfg vfCfg, srcTree vfTree, tops []string, dstBefo
 	}
 }
 
+// vfRunTransfer runs one transfer to completion on both sides and classifies both outcomes.
+// finished=false means a side did not return within the bound (already recorded as slow).
+func vfRunTransfer(c *vfCtx, cfg vfCfg, paths []string, dst string, bound time.Duration) (s *vfSession, so, co vfOutcome, finished bool) {
+	s = vfNewSession(c, cfg)
+	t0 := time.Now()
+	s.Start(paths, dst)
+	okS := s.WaitServer(bound)
+	okC := s.WaitClient(bound)
+	if !okS || !okC {
+		c.Slow("not-finished", "transfer did not finish within %v (server done=%v client done=%v) cfg=%s", bound, okS, okC, cfg)
+		s.Close()
+		return s, so, co, false
+	}
+	c.Obs("transfers", 1)
+	c.Obs("transfer_ms", time.Since(t0).Milliseconds())
+	so, co = s.ServerOutcome(), s.ClientOutcome()
+	return s, so, co, true
+}
+
+// vfReportedNames returns the names told to the user (server message for uploads, client EXIT for downloads).
+func vfReportedNames(cfg vfCfg, so, co vfOutcome) []string {
+	if cfg.Dir == "up" && len(so.Names) > 0 {
+		return so.Names
+	}
+	return co.Names
+}
+
 func vfIsTimeoutText(s string) bool {
 	return strings.Contains(s, "Receive data timeout") || strings.Contains(s, "timeout")
 }
